@@ -18,6 +18,13 @@ Op(o, pos, val) == [o |-> o, pos |-> pos, val |-> val]
 
 InitVals(n) == [i \in 1..n |-> [id |-> i, val |-> 10 * i]]
 
+\* operations that hand a value back to the user, and the access path they report
+WriteOps == {"lockw", "scopedw", "getmut", "childmut", "itermut"}
+ReadOps  == {"lockr", "scopedr"}
+PathOf(o) == CASE o = "lockw" -> "guard" [] o = "scopedw" -> "scoped" [] o = "getmut" -> "get_mut"
+               [] o = "childmut" -> "child_mut" [] o = "itermut" -> "iter_mut"
+               [] o = "lockr" -> "read" [] o = "scopedr" -> "scoped_read" [] OTHER -> "?"
+
 \* content after the first k operations
 RECURSIVE ValsAfter(_, _)
 ValsAfter(sc, k) ==
@@ -25,6 +32,7 @@ ValsAfter(sc, k) ==
   ELSE LET v  == ValsAfter(sc, k - 1)
            op == sc.ops[k] IN
        IF op.o = "extend" THEN Append(v, [id |-> Len(v) + 1, val |-> 10 * (Len(v) + 1)])
+       ELSE IF op.o \in ReadOps THEN v
        ELSE [v EXCEPT ![op.pos].val = op.val]
 
 \* the vret events a correct implementation produces, in order
@@ -34,7 +42,7 @@ OpRets(sc) ==
      LET k == idx[j]
          v == ValsAfter(sc, k - 1)
          op == sc.ops[k] IN
-     [path |-> IF op.o = "lockw" THEN "guard" ELSE "get_mut", pos |-> op.pos, id |-> v[op.pos].id, val |-> v[op.pos].val]]
+     [path |-> PathOf(op.o), pos |-> op.pos, id |-> v[op.pos].id, val |-> v[op.pos].val]]
 DtorRets(sc) ==
   LET v == ValsAfter(sc, Len(sc.ops)) IN
   IF sc.dtor = "drop" \/ sc.ctor \in {"reject", "zst"} THEN <<>>
@@ -44,38 +52,58 @@ AllIds(sc) == IF sc.ctor = "reject" THEN {1, 2} ELSE IF sc.ctor = "zst" THEN {1}
 
 (***************************************************************************)
 (* The scenario family                                                     *)
+(*   mem   : "m"  members are Mutex<D>      "rw" members are RwLock<D>      *)
+(*   kind  : boxed | retry | owned | ref | pois                            *)
+(*   ctor  : new | try_new | from | from_iter | new_ref (collection over   *)
+(*           a borrowed container) | reject | zst                          *)
 (***************************************************************************)
 Sizes(shape, maxn) == IF shape = "tuple2" THEN {2} ELSE IF shape = "single" THEN {1} ELSE 0..maxn
 
-RECURSIVE OpSeqs(_, _, _, _)
-\* all operation sequences of length <= k for a container of current size n
-OpSeqs(kind, shape, n, k) ==
+Borrowing(kind, ctor) == kind = "ref" \/ ctor = "new_ref"      \* the collection does not own the container
+
+\* which operations a history over this collection may contain
+OpMenu(kind, shape, mem, ctor) ==
+  IF mem = "rw" THEN {"lockw", "scopedw", "lockr", "scopedr"}
+  ELSE {"lockw", "scopedw"}
+       \cup (IF kind \in {"retry", "owned"} /\ ~Borrowing(kind, ctor) THEN {"getmut", "childmut"} ELSE {})
+       \cup (IF kind = "pois" THEN {"getmut", "childmut"} ELSE {})
+       \cup (IF kind = "retry" /\ ~Borrowing(kind, ctor) /\ shape \in {"array", "vec", "boxslice"} THEN {"itermut"} ELSE {})
+       \cup (IF kind \in {"retry", "owned"} /\ ~Borrowing(kind, ctor) /\ shape = "vec" THEN {"extend"} ELSE {})
+
+ValOf(o, k) == CASE o = "lockw" -> 100 + k [] o = "getmut" -> 200 + k [] o = "scopedw" -> 300 + k
+                 [] o = "childmut" -> 400 + k [] o = "itermut" -> 500 + k [] OTHER -> 0
+
+RECURSIVE OpSeqs(_, _, _)
+\* all operation sequences of length <= k over the menu, for a container of current size n
+OpSeqs(menu, n, k) ==
   IF k = 0 THEN {<<>>}
   ELSE {<<>>} \cup
-       UNION {
-         {<<Op("lockw", p, 100 + k)>> \o r : r \in OpSeqs(kind, shape, n, k - 1)} : p \in 1..n }
-       \cup (IF kind \in {"retry", "owned"}
-             THEN UNION {{<<Op("getmut", p, 200 + k)>> \o r : r \in OpSeqs(kind, shape, n, k - 1)} : p \in 1..n}
-             ELSE {})
-       \cup (IF kind \in {"retry", "owned"} /\ shape = "vec"
-             THEN {<<Op("extend", 0, 0)>> \o r : r \in OpSeqs(kind, shape, n + 1, k - 1)}
+       UNION {UNION {
+         {<<Op(o, p, ValOf(o, k))>> \o r : r \in OpSeqs(menu, n, k - 1)} : p \in 1..n } : o \in menu \ {"extend"}}
+       \cup (IF "extend" \in menu
+             THEN {<<Op("extend", 0, 0)>> \o r : r \in OpSeqs(menu, n + 1, k - 1)}
              ELSE {})
 
-Ctors(kind, shape) ==
-  IF kind = "boxed" THEN {"new", "try_new", "from"} \cup (IF shape \in {"vec", "boxslice"} THEN {"from_iter"} ELSE {})
-  ELSE IF kind = "pois" THEN {"new"} ELSE {"new", "from"}
-Dtors(kind, shape) ==
-  {"drop", "into_inner", "into_child"} \cup (IF shape \in {"array", "vec", "boxslice"} THEN {"into_iter"} ELSE {})
+Ctors(kind, shape, mem) ==
+  IF kind = "boxed" THEN {"new", "try_new", "from", "new_ref"} \cup (IF shape \in {"vec", "boxslice"} THEN {"from_iter"} ELSE {})
+  ELSE IF kind = "pois" THEN {"new"}
+  ELSE IF kind = "ref" THEN {"new", "try_new"}
+  ELSE IF kind = "retry" THEN {"new", "from", "new_ref"}
+  ELSE {"new", "from"}
+Dtors(kind, shape, mem, ctor) ==
+  IF Borrowing(kind, ctor) \/ mem = "rw" THEN {"drop", "into_inner"}     \* of the borrowed container, after the collection is gone
+  ELSE {"drop", "into_inner", "into_child"} \cup (IF shape \in {"array", "vec", "boxslice"} THEN {"into_iter"} ELSE {})
 Shapes(kind) == IF kind = "pois" THEN {"single"} ELSE {"tuple2", "array", "vec", "boxslice"}
+Mems(kind) == IF kind = "pois" THEN {"m"} ELSE {"m", "rw"}
 
 Scenarios(kinds, maxn, maxops) ==
-  UNION {UNION {UNION {
-      {[kind |-> kd, shape |-> sh, n |-> n, ctor |-> ct, ops |-> ops, dtor |-> dt] :
-          ct \in Ctors(kd, sh), ops \in OpSeqs(kd, sh, n, maxops), dt \in Dtors(kd, sh)}
-      : n \in Sizes(sh, maxn)} : sh \in Shapes(kd)} : kd \in kinds}
-  \cup {[kind |-> kd, shape |-> "mixed", n |-> 2, ctor |-> "reject", ops |-> <<>>, dtor |-> "drop"] :
+  UNION {UNION {UNION {UNION {UNION {
+      {[kind |-> kd, shape |-> sh, mem |-> mm, n |-> n, ctor |-> ct, ops |-> ops, dtor |-> dt] :
+          ops \in OpSeqs(OpMenu(kd, sh, mm, ct), n, maxops), dt \in Dtors(kd, sh, mm, ct)}
+      : ct \in Ctors(kd, sh, mm)} : n \in Sizes(sh, maxn)} : mm \in Mems(kd)} : sh \in Shapes(kd)} : kd \in kinds}
+  \cup {[kind |-> kd, shape |-> "mixed", mem |-> "m", n |-> 2, ctor |-> "reject", ops |-> <<>>, dtor |-> "drop"] :
           kd \in kinds \cap {"boxed", "retry"}}
   \* an empty (zero-sized) owned collection next to a lock: duplicate-free, must be accepted (C07)
-  \cup {[kind |-> kd, shape |-> "zst", n |-> 1, ctor |-> "zst", ops |-> <<>>, dtor |-> "drop"] :
-          kd \in (kinds \cap {"boxed", "retry"}) \cup {"ref"}}
+  \cup {[kind |-> kd, shape |-> "zst", mem |-> "m", n |-> 1, ctor |-> "zst", ops |-> <<>>, dtor |-> "drop"] :
+          kd \in (kinds \cap {"boxed", "retry", "ref"})}
 =============================================================================
